@@ -9,6 +9,9 @@ A case is a SESSION on one problem: one to three wrapper objects (subjects below
   set_step     problem.surrogate.train_step = k
   set_trained  problem.surrogate.trained = b
   use          problem.surrogate = wrappers[k]                  (the other wrapper objects keep their state)
+  set_stats    problem.surrogate.eval_stats = b                 (red team round 5: the switch that lets train() skip the score
+               statistics; every wrapper also STARTS with eval_stats True or False, assigned after construction.  The model has
+               no such field: the event is not handed to the model, counters / schedule / answers must not depend on it)
 optionally preceded by a warm-up segment of the same kind that is run on the real objects only; the
 model run then STARTS FROM THE SNAPSHOT of the real wrappers (counters advanced, training set seeded:
 len(x_data) != eval_counter), not from a fresh wrapper.
@@ -280,7 +283,7 @@ def gen_answer(rng, m, p_special=0.6, p_falsy=0.25, p_nan=0.3):
 
 
 def gen_slot(rng, subject, ts, trained0, n, p_train_ok):
-    return {"subject": subject, "train_step": ts, "trained0": trained0,
+    return {"subject": subject, "train_step": ts, "trained0": trained0, "eval_stats0": rng.choice([True, False, False]),
             "train_script": [rng.random() < p_train_ok for _ in range(n + 1)],
             "scores": [rng.choice(SCORES) for _ in range(n + 1)]}
 
@@ -298,8 +301,11 @@ def gen_plain(rng):
     p_pres = rng.choice([0.0, 0.3, 0.7, 1.0])
     p_tshape = rng.choice([0.0, 0.0, 0.3, 0.7])
     events = gen_requests(rng, n, dim, m, p_accept, p_exotic, p_pres, p_tshape, via_ok=ts != 0)
+    if rng.random() < 0.5:                           # eval_stats switched in the middle of the stream
+        for _ in range(rng.choice([1, 1, 2, 3, 5])):
+            events.insert(rng.randint(0, len(events)), ["set_stats", rng.random() < 0.4])
     return {"stream": "plain", "has_hook": rng.random() < 0.8,
-            "via_job": ts != 0 and rng.random() < 0.4 and all(answer_iterable(e[2]) and answer_iterable(e[3]) for e in events),
+            "via_job": ts != 0 and rng.random() < 0.4 and all(answer_iterable(e[2]) and answer_iterable(e[3]) for e in events if e[0] == "req"),
             "cur": 0, "slots": [gen_slot(rng, subject, ts, rng.random() < (0.2 if p_exotic == 0.0 else 0.6), n, p_train_ok)],
             "warmup": [], "events": events}
 
@@ -356,6 +362,8 @@ def gen_session(rng):
                 events.append(["set_step", rng.choice(SESSION_STEPS)])
             elif u < 0.74:
                 events.append(["set_trained", rng.random() < 0.6])
+            elif u < 0.86:
+                events.append(["set_stats", rng.random() < 0.4])
             elif n_slots > 1:
                 c = rng.choice([k for k in range(n_slots) if k != c])
                 events.append(["use", c])
@@ -452,6 +460,8 @@ def run(ctx):
     pres = {k: 0 for k in ("fresh", "reuse", "state EMPTY", "state IN_PROGRESS", "state EVALUATED", "state FAILED", "via job", "direct",
                            "direct, EVALUATED, costs differ from the true value")}
     truekinds = {}
+    stats = {k: 0 for k in ("set_stats events", "requests with eval_stats on", "requests with eval_stats off", "true evaluations with eval_stats off",
+                            "train() calls with eval_stats off", "wrappers starting with eval_stats off")}
     sep = {"retrain_decisions": 0, "len_x_data_differs_from_eval_counter": 0, "cases_with_such_a_decision": 0,
            "trains_with_len_x_data_differing": 0,
            "quantity_differs": {k: 0 for k in SEP}, "decision_would_differ": {k: 0 for k in SEP}}
@@ -461,7 +471,7 @@ def run(ctx):
         evs = case["warmup"] + case["events"]
         upto = (i if seg == "warmup" else len(case["warmup"]) + i) + 1 if i is not None else len(evs)
         d = {"what": what, "input": {"has_hook": case["has_hook"], "via_job": case["via_job"], "cur": case["cur"],
-                                     "wrappers": [{k: sl[k] for k in ("subject", "train_step", "trained0")} for sl in case["slots"]],
+                                     "wrappers": [{k: sl.get(k, True) for k in ("subject", "train_step", "trained0", "eval_stats0")} for sl in case["slots"]],
                                      "event_index": upto - 1, "events": evs[:upto]},
              "match": {"kind": "surrogate_sequence", "subject": kw.get("subject"), "train_step": kw.get("train_step"), "clause": kw.get("clause", what)}}
         d["input"].update({k: v for k, v in kw.items() if k not in ("clause", "subject", "train_step")})
@@ -474,6 +484,7 @@ def run(ctx):
         problem.individuals = []
         problem.n_obj = 0
         wrappers, acct = [], []
+        stats_off = any(not sl.get("eval_stats0", True) for sl in case["slots"]) or any(e[0] == "set_stats" for e in case["warmup"] + case["events"])
         for sl in case["slots"]:
             subject, ts = sl["subject"], sl["train_step"]
             if subject == "eval":
@@ -489,6 +500,12 @@ def run(ctx):
                 sur.train_step = ts
             if subject != "eval":
                 sur.trained = sl["trained0"]
+            # red team round 5: the switch is assigned after construction (there is no constructor argument) and again by set_stats
+            # events.  Unchanged code: only SurrogateModelScikit.train / SurrogateModelSMT.train read it (score statistics skipped).
+            sur.eval_stats = sl.get("eval_stats0", True)
+            if subject == "scikit" and stats_off:
+                sur.score = 0.75        # a score left by an earlier training: with score None, train() of the unchanged code raises
+                                        # TypeError (`None >= score_threshold`) when the statistics are off - outside the property
             sur.rec = Rec()
             sur.c19_subject = subject
             wrappers.append(sur)
@@ -573,6 +590,13 @@ def run(ctx):
                     sur.trained = ev[1]
                 elif kind == "use":
                     problem.surrogate = wrappers[ev[1]]
+                elif kind == "set_stats":
+                    sur.eval_stats = ev[1]
+                    stats["set_stats events"] += 1
+                if kind == "req":
+                    stats["requests with eval_stats " + ("on" if sur.eval_stats else "off")] += 1
+                    stats["true evaluations with eval_stats off"] += (not sur.eval_stats) and len(rec.obj) > before[5]
+                    stats["train() calls with eval_stats off"] += (not sur.eval_stats) and len(rec.train) - before[7]
                 # ---- direct oracle: the clauses of the property on the implementation alone
                 for j, st in others:
                     if state_of(wrappers[j]) != st:
@@ -719,7 +743,7 @@ def run(ctx):
             ll(sn["x_data"], enc_vec), ll(sn["y_data"], enc_vec), ll(fin["tape"], bl))
             for sl, sn, fin in zip(case["slots"], obs["snapshot"], obs["final"])]
         c = "{| c9_hook := %s; c9_cur := %s; c9_slots := [%s]; c9_events := %s |}" % (
-            bl(case["has_hook"]), nl(obs["cur0"]), "; ".join(slots), ll(case["events"], enc_event))
+            bl(case["has_hook"]), nl(obs["cur0"]), "; ".join(slots), ll([e for e in case["events"] if e[0] != "set_stats"], enc_event))
         e = pl(ll(obs["returned"], lambda v: optl(v, enc_vec)), nl(obs["cur"]),
                ll(obs["final"], lambda f: pl(pl(bl(f["trained"]), nl(f["eval_counter"]), nl(f["predict_counter"])), zl(f["train_step"]),
                                              ll(f["x_data"], enc_vec), ll(f["y_data"], enc_vec),
@@ -745,11 +769,12 @@ def run(ctx):
         expected.append(e)
         fin = obs["final"]
         meta.append({k: case[k] for k in ("stream", "has_hook", "via_job", "cur", "warmup", "events")} |
-                    {"wrappers": [{k: sl[k] for k in ("subject", "train_step", "trained0")} for sl in case["slots"]],
+                    {"wrappers": [{k: sl.get(k, True) for k in ("subject", "train_step", "trained0", "eval_stats0")} for sl in case["slots"]],
                      "model_start": [{k: sn[k] for k in ("trained", "eval_counter", "predict_counter", "train_step")} | {"len_x_data": len(sn["x_data"])}
                                      for sn in obs["snapshot"]],
                      "observed": {"returned": [jdesc(r) for r in obs["returned"]], "wrappers": [{k: f[k] for k in ("eval_counter", "predict_counter", "train_log", "tape")} for f in fin]}})
         n = len(case["events"])
+        stats["wrappers starting with eval_stats off"] += sum(not sl.get("eval_stats0", True) for sl in case["slots"])
         hist["stream"][case["stream"]] = hist["stream"].get(case["stream"], 0) + 1
         hist["wrappers_per_case"][str(len(fin))] = hist["wrappers_per_case"].get(str(len(fin)), 0) + 1
         for sl in case["slots"]:
@@ -797,14 +822,14 @@ def run(ctx):
 
     # corpus: boundary cases read off the code
     def plain(subject="scikit", train_step=2, requests=(), has_hook=True, trained0=False, via_job=False,
-              train_script=None, warmup=(), events=None, slots=None, cur=0):
-        sl = {"subject": subject, "train_step": train_step, "trained0": trained0,
+              train_script=None, warmup=(), events=None, slots=None, cur=0, stats0=True):
+        sl = {"subject": subject, "train_step": train_step, "trained0": trained0, "eval_stats0": stats0,
               "train_script": train_script or [True] * 70, "scores": [0.3] * 70}
         return {"stream": "corpus", "has_hook": has_hook, "via_job": via_job, "cur": cur, "slots": slots or [sl],
                 "warmup": list(warmup), "events": list(events) if events is not None else list(requests)}
 
-    def slot(subject, train_step, trained0=False, train_script=None):
-        return {"subject": subject, "train_step": train_step, "trained0": trained0,
+    def slot(subject, train_step, trained0=False, train_script=None, stats0=True):
+        return {"subject": subject, "train_step": train_step, "trained0": trained0, "eval_stats0": stats0,
                 "train_script": train_script or [True] * 70, "scores": [0.3] * 70}
 
     R = lambda v, h, t: ["req", [float(v)], None if h is None else [float(h)], [float(t)]]
@@ -916,6 +941,21 @@ def run(ctx):
         trues = [t for t in TRUES if answer_iterable(t)] if via else TRUES
         corpus.append(plain(subject, ts, [["req", [float(j)], [7.0] if (tr0 and j % 4 == 3) else None, t] for j, t in enumerate(trues)],
                             trained0=tr0, via_job=via))
+    # red team round 5: the eval_stats switch (rule 5 / 9) off from the start, switched off / on in the middle of the stream, per wrapper
+    # object of a session; the schedule of the unchanged code (train at evaluations 3, 6, 9 ...) and the counters do not depend on it
+    S = lambda b: ["set_stats", b]
+    mix = lambda n: [R(i, 7 if i % 4 == 3 else None, i * i) for i in range(n)]
+    corpus += [plain("eval", 1, [R(1, 9, 10), R(1, 9, 10), R(2, None, 20)], stats0=False),
+               plain("eval", 1, events=[R(1, 9, 10), S(False), R(1, 9, 10), R(2, None, 20), S(True), R(3, None, 30)], via_job=True),
+               plain("scikit", 3, mix(14), stats0=False),
+               plain("scikit", 1, mix(8), stats0=False, trained0=True),
+               plain("scikit", -1, mix(8), stats0=False, trained0=True),
+               plain("scripted", 3, mix(14), stats0=False, train_script=[True, False] * 35),
+               plain("scikit", 3, events=mix(4) + [S(False)] + mix(7) + [S(True)] + mix(4) + [S(False), ["train"]] + mix(4)),
+               plain("scripted", 2, events=[S(False)] + mix(5) + [S(True)] + mix(5), stats0=False, via_job=True),
+               plain("scikit", 4, warmup=[doe(3), S(False)] + mix(3), events=mix(9) + [S(True)] + mix(3)),
+               plain(slots=[slot("eval", -1, stats0=False), slot("scikit", 2, stats0=True), slot("scripted", 3, stats0=False)],
+                     events=mix(3) + [["use", 1]] + mix(5) + [S(False)] + mix(4) + [["use", 2]] + mix(7) + [["use", 0], S(True)] + mix(2) + [["use", 1]] + mix(3))]
     for case in corpus:
         add(case)
     for k in range(n_plain):
@@ -932,10 +972,11 @@ def run(ctx):
                 "~40%% through Job.evaluate). session: 4..40 requests on 1..3 wrapper objects interleaved with read_from_data_store() "
                 "(0..9 individuals in all four states, sometimes the same individuals again), user train() calls, assignments of train_step "
                 "(from %r), trained and problem.surrogate; in ~40%% of the sessions a prefix is a warm-up run on the real objects only and the "
-                "model starts from the observed snapshot. A case is non-trivial when it has more than one event; distinct = distinct "
+                "model starts from the observed snapshot. Every wrapper starts with eval_stats True (1/3) or False (2/3) and the switch is "
+                "assigned again in the middle of half of the plain streams and of the sessions (the model has no such field). A case is non-trivial when it has more than one event; distinct = distinct "
                 "(stream, hook, length, per wrapper: subject, starting and final train_step / eval_counter / training-set size, "
                 "predict_counter, train-call counters)") % (sorted(set(TRAIN_STEPS)), sorted(set(SESSION_STEPS)))
-    ctx.extra.update({"individual_objects_presented_to_the_wrapper": pres, "objective_value_kinds": truekinds, "distribution": hist, "look_alike_quantities_at_retrain_decisions": sep})
+    ctx.extra.update({"eval_stats_switch": stats, "individual_objects_presented_to_the_wrapper": pres, "objective_value_kinds": truekinds, "distribution": hist, "look_alike_quantities_at_retrain_decisions": sep})
 
 
 LEVEL_TEXT = ("Machine-checked Coq theorems over a state-machine model of SurrogateModelEval.evaluate, SurrogateModelPredict.evaluate / "
